@@ -154,8 +154,12 @@ End Gibbs.
 (* ------------------------------------------------------------------------------------ *)
 Lemma sumQ_nil {A : Type} (f : A -> Q) : sumQ f [] = 0.
 Proof. reflexivity. Qed.
-Lemma sumQ_cons {A : Type} (f : A -> Q) x t : sumQ f (x :: t) = f x + sumQ f t.
+(* the model keeps the running total in lowest terms: qadd a b = Qred (a + b) *)
+Lemma sumQ_cons {A : Type} (f : A -> Q) x t : sumQ f (x :: t) == f x + sumQ f t.
+Proof. unfold sumQ. cbn [fold_right]. unfold qadd. apply Qred_correct. Qed.
+Lemma sumQ_cons_eq {A : Type} (f : A -> Q) x t : sumQ f (x :: t) = qadd (f x) (sumQ f t).
 Proof. reflexivity. Qed.
+Arguments sumQ : simpl never.
 Lemma sumR_nil {A : Type} (f : A -> R) : sumR f [] = 0%R.
 Proof. reflexivity. Qed.
 Lemma sumR_cons {A : Type} (f : A -> R) x t : sumR f (x :: t) = (f x + sumR f t)%R.
@@ -212,7 +216,7 @@ Proof.
 Qed.
 
 Lemma sumQ_map {B : Type} (h : B -> A) (f : A -> Q) l : sumQ f (map h l) = sumQ (fun x => f (h x)) l.
-Proof. induction l as [|x t IH]; cbn [map]; sq; [reflexivity|]. rewrite IH. reflexivity. Qed.
+Proof. induction l as [|x t IH]; cbn [map]; [reflexivity|]. rewrite !sumQ_cons_eq, IH. reflexivity. Qed.
 
 Lemma sumR_le (f g : A -> R) l : (forall x, In x l -> (f x <= g x)%R) -> (sumR f l <= sumR g l)%R.
 Proof.
@@ -228,7 +232,10 @@ Lemma Q2R_0 : Q2R 0 = 0%R.
 Proof. unfold Q2R; cbn. lra. Qed.
 
 Lemma Q2R_sumQ (f : A -> Q) l : Q2R (sumQ f l) = sumR (fun x => Q2R (f x)) l.
-Proof. induction l as [|x t IH]; sq; [apply Q2R_0|]. rewrite Q2R_plus, IH. reflexivity. Qed.
+Proof.
+  induction l as [|x t IH]; [rewrite sumQ_nil, sumR_nil; apply Q2R_0|].
+  rewrite (Qeq_eqR _ _ (sumQ_cons f x t)), sumR_cons, Q2R_plus, IH. reflexivity.
+Qed.
 
 End Sums.
 
@@ -1081,13 +1088,13 @@ Definition em_inv (p : params) (data : list drow) : Prop :=
 
 Lemma mass_estep_m i p p' data c : mass_m i (estep p' data) c = mass_m i (estep p data) c.
 Proof.
-  unfold mass_m. induction c as [|l t IH]; sq; [reflexivity|].
-  rewrite IH, (observed_estep i (lv_val l) p' p data). reflexivity.
+  unfold mass_m. induction c as [|l t IH]; [reflexivity|].
+  rewrite !sumQ_cons_eq, IH, (observed_estep i (lv_val l) p' p data). reflexivity.
 Qed.
 Lemma mass_estep_u i p p' data c : mass_u i (estep p' data) c = mass_u i (estep p data) c.
 Proof.
-  unfold mass_u. induction c as [|l t IH]; sq; [reflexivity|].
-  rewrite IH, (observed_estep i (lv_val l) p' p data). reflexivity.
+  unfold mass_u. induction c as [|l t IH]; [reflexivity|].
+  rewrite !sumQ_cons_eq, IH, (observed_estep i (lv_val l) p' p data). reflexivity.
 Qed.
 
 Theorem em_step_preserves (fl : flags) (p : params) (data : list drow) :
